@@ -2,8 +2,13 @@
    Statements only; proofs are in coq/tzfile/*Thm.v.  `good d` is the executable decoder
    invariant (TzData.good; C06_decoder_invariant shows every decoded file has it, the harness
    also evaluates it on every zone), wf_zone the executable well-formedness of the zone
-   (strictly increasing transitions, consecutive transitions at least as far apart as the two
-   adjacent offset changes, offsets within a day).  Non-vacuity: tzfile/TzExamples.v. *)
+   (strictly increasing transitions, every offset regime at least as long as the repeated intervals at
+   its two ends together and as the gap at either end, offsets within a day; its complement is the open
+   finding F-C04-short-regime, witness C05_short_regime_refuted).  Non-vacuity: tzfile/TzExamples.v.
+   STATED SCOPE: "the offset in force" is claimed against the raw data on [first, last) (C06's theorems);
+   from the last transition on dateutil applies ttinfo_std BY DESIGN (version-1 data does not determine local
+   time after its last transition, RFC 8536 3.2; the footer is ignored): there the theorems are about
+   zone_of d (round trip, fold, self-consistency) and the check compares implementation with model. *)
 From Coq Require Import ZArith List Bool.
 Import ListNotations.
 From V Require Import tzfile.TzModel tzfile.TzSpec tzfile.TzData tzfile.TzFixedThm tzfile.TzFinalThm
